@@ -65,7 +65,7 @@ MIXED6 = [[m] * 6 for m in ALPHABET] + [
     ['edge', 'symmetric', 'symmetric', 'symmetric', 'symmetric', 'symmetric'],
     [0.7, 'edge', 0.7, 'wrap', 0.7, 'symmetric'],
 ]
-OVERRIDES = ['pt0', 'ptlast', 'xlo', 'yhi', 'checker', 'arr', 'two']
+OVERRIDES = ['pt0', 'ptlast', 'xlo', 'yhi', 'checker', 'arr', 'two', 'overlap2', 'overlap3']
 
 
 # ------------------------------------------------------------------------------------------------ tables
@@ -127,6 +127,12 @@ def make_override(name, grid):
     if name == 'arr':
         el = sorted({(i, i % ny, i % nz) for i in range(nx)})
         return [(tuple(np.array(c) for c in zip(*el)), el, 0.9)]
+    if name == 'overlap3':
+        # three registrations that overlap, values v1, v2, v1: the element in all three shows the last one
+        return make_override('xlo', grid) + make_override('yhi', grid) + \
+            [((0, ny - 1, 0), [(0, ny - 1, 0)], 1.0)]
+    if name == 'overlap2':
+        return make_override('yhi', grid) + make_override('xlo', grid)
     if name == 'two':
         return make_override('pt0', grid) + [((nx - 1, ny - 1, nz - 1), [(nx - 1, ny - 1, nz - 1)], 0.8)]
     raise KeyError(name)
